@@ -106,8 +106,12 @@ def make_profiles(v, sid, rnd, quick):
     paths = find_paths(base, None)
     by_level = {"SEG": [], "GRP": [], "FIE": [], "CMP": []}
     for p, ch in paths:
-        if "MSH" in p or len(ch[0]) > 3 and ch[3] == "SEG":
+        if len(ch[0]) > 3 and ch[3] == "SEG":
             continue
+        if "MSH" in p:
+            # inside the header only fields that neither the constructor nor the instance texts fill in
+            if len(p) < 2 or p[0] != "MSH" or not p[1].startswith("MSH_") or int(p[1][4:]) < 13:
+                continue
         if any(n[2][1] == 0 for n in path_nodes(base, p)[:-1]):
             continue        # below a withdrawn element: the way down is refused under STRICT
         by_level.setdefault(ch[3], []).append(p)
@@ -215,7 +219,7 @@ def instance_lines(kids, chosen, rep, exclude, force=False):
     return ["%s|" % n for n in gen_excluding(kids, chosen, rep, exclude, force)]
 
 
-ROUTES = ("add", "trav", "parsed", "assigned")
+ROUTES = ("add", "trav", "parsed", "assigned", "value")
 
 
 class SkipRoute(Exception):
@@ -241,7 +245,7 @@ def build_parent(v, sid, prof, path, route):
     chosen = set(id(k) for k in sn)
     edited = st_nodes(st, [n[0] for n in nodes if n[3] in ("GRP", "SEG")])
     exclude = id(edited[-1]) if nodes[-1][3] in ("GRP", "SEG") and len(edited) == len(structural) + 1 else None
-    if route == "parsed":
+    if route in ("parsed", "value"):
         # a repeatable group is given twice when it opens with a non-repeatable segment of its own (a repetition that opens with a
         # nested non-repeatable group is the recorded finding C08-nonrepeatable-inner-group, not this property)
         # ... and that segment is named at one place of the structure only (the premise of C08's prescription)
@@ -251,9 +255,22 @@ def build_parent(v, sid, prof, path, route):
                    and allnames.count(k["kids"][0]["name"]) == 1)
         body = [l for l in instance_lines(st["kids"], chosen, rep, exclude) if not l.startswith("MSH")]
         head = groups.msh(v, sid)
-        try:
+        if route == "value":
+            # a message created with the profile, then given its whole content as text
+            el = Message(sid, reference=prof, version=v, validation_level=VL.STRICT)
+            if v >= "2.7":
+                head = head.replace("|^~\\&|", "|^~\\&#|")     # (the message was created with the five-character default set)
+            try:
+                el.value = "\r".join([head] + body)
+            except Exception as ex:
+                if type(ex).__name__ != "InvalidName" or "_" not in sid:
+                    raise SkipRoute() if type(ex).__name__ == "InvalidName" else ex
+                el = Message(sid, reference=prof, version=v, validation_level=VL.STRICT)
+                el.value = "\r".join([head.replace("^" + sid + "|", "|")] + body)
+        else:
+          try:
             el = parse_message("\r".join([head] + body), message_profile=prof, validation_level=VL.STRICT)
-        except Exception as ex:
+          except Exception as ex:
             if type(ex).__name__ != "InvalidName":
                 raise
             # versions whose MSH-9 has two components only: the structure is then derived as TYPE_EVENT
@@ -272,7 +289,9 @@ def build_parent(v, sid, prof, path, route):
     for i, n in enumerate(up):
         name = n[0]
         nxt = None
-        if route == "parsed" and n[3] in ("GRP", "SEG"):
+        if name == "MSH" and cls == "MSG":
+            nxt = last_of(el, name)         # (the header every message is created with)
+        elif route in ("parsed", "value") and n[3] in ("GRP", "SEG"):
             nxt = last_of(el, name)
         elif route == "assigned" and n[3] in ("GRP", "SEG") and i < len(sn):
             if n[3] == "SEG":
@@ -313,14 +332,14 @@ def create_events(v, sid, desc, prof, path, kind, node):
     for route in ROUTES:
         if route == "trav" and len(path) == 1:
             continue
-        if route in ("parsed", "assigned") and not unambiguous:
+        if route in ("parsed", "assigned", "value") and not unambiguous:
             continue        # text can be grouped in one way only when every segment is named at one place (premise of C08)
         for how in hows:
             e = {"k": "create", "route": route, "how": how, "desc": desc, "v": v, "sid": sid, "dt_want": dt_want or "", "dt_got": "",
                  "max_want": mx, "accepted": 0, "tried": 3, "outcome": "ok"}
             try:
                 parent, pcls = build_parent(v, sid, prof, path, route)
-                pre = 0 if route in ("add", "trav") else len(list(getattr(parent, name.lower())))
+                pre = len(list(getattr(parent, name.lower()))) if (route in ("parsed", "assigned", "value") or "MSH" in path) else 0
                 got_dt = None
                 acc = 0
                 for k in range(pre, pre + 3):
@@ -354,6 +373,53 @@ def create_events(v, sid, desc, prof, path, kind, node):
                 continue
             except Exception as ex:
                 e["outcome"] = exc_name(ex)
+            out.append(e)
+    return out
+
+
+def positional_events(v, sid, rnd):
+    """profiles that give a complex component another complex datatype; the subcomponents are then reached by the
+    positional names <field>_<j>_<k> and by name"""
+    import_hl7apy()
+    import hl7apy
+    from hl7apy.core import Message
+    from hl7apy.consts import VALIDATION_LEVEL as VL
+    out = []
+    std = hl7apy.load_reference(sid, "Message", v)
+    base = deep_list(std)
+    cands = []
+    for p_, ch in find_paths(base, None):
+        if ch[3] == "CMP" and len(p_) >= 2 and isinstance(ch[1], list) and ch[1] and ch[1][0] == "sequence" and "MSH" not in p_:
+            nodes_ = path_nodes(base, p_)
+            if nodes_[-2][3] == "FIE" and not any(n[2][1] == 0 for n in nodes_):
+                cands.append(p_)
+    rnd.shuffle(cands)
+    for p_ in cands[:2]:
+        prof = deep_list(std)
+        nodes_ = path_nodes(prof, p_)
+        comp = nodes_[-1]
+        olddt = comp[1][2]
+        others = [d for d in T.complex_datatypes(v) if d != olddt and len(T.dt_rows(v, d) or []) >= 2
+                  and all(c["kind"] == "base" for c in T.dt_rows(v, d)) and T.dt_rows(v, d)[-1]["dt"] in ("ST", "ID", "IS")
+                  and T.dt_rows(v, d)[-1]["max"] != 0]
+        if not others:
+            continue
+        nd = rnd.choice(others)
+        comp[1] = ["sequence", deep_list(hl7apy.load_reference(nd, "Datatypes_Structs", v)), nd] + list(comp[1][3:])
+        fname, cname = p_[-2], p_[-1]
+        j = int(cname.split("_")[-1])
+        k = len(T.dt_rows(v, nd))
+        for lvl in (VL.STRICT, VL.TOLERANT):
+            e = {"k": "pos", "desc": "swapc:%s->%s" % ("/".join(p_), nd), "v": v, "sid": sid, "how": "positional", "route": "add",
+                 "want": "%s_%d" % (nd, k), "got": "", "lvl": int(lvl)}
+            try:
+                m = Message(sid, reference={sid: prof}, version=v, validation_level=lvl)
+                parent, pcls = build_parent(v, sid, {sid: prof}, p_, "add")        # the field
+                setattr(parent, "%s_%d_%d" % (fname.lower(), j, k), "x")
+                sub = getattr(getattr(parent, cname.lower()), "%s_%d" % (nd.lower(), k))
+                e["got"] = sub.element_name if len(sub) else "-"
+            except Exception as ex:
+                e["got"] = "!" + exc_name(ex)
             out.append(e)
     return out
 
@@ -496,6 +562,10 @@ def _chunk(args):
         except Exception as ex:
             creates.append({"harness_note": "profile synthesis failed for %s %s: %r" % (v, sid, ex)})
             continue
+        try:
+            creates.extend(positional_events(v, sid, rnd))
+        except Exception as ex:
+            creates.append({"harness_note": "positional events failed for %s %s: %r" % (v, sid, ex)})
         for (desc, prof, path, kind, node) in profs:
             if kind == "restate":
                 a = digest_suite(v, sid, prof)
